@@ -83,6 +83,7 @@ type link struct {
 	Kind   int // 0 internal, 1 sibling, 2 external
 	Origin int // 0 provider made at construction ("udpip"), 1 lazily instantiated
 	IfID   int
+	Salt   int
 	Remote string
 }
 
@@ -90,6 +91,7 @@ type plumbCase struct {
 	Rcv, Snd, Batch int
 	Reuse           bool
 	Driver          int // 0 = control.ConfigDataplane on a topology, 1 = Connector calls
+	V6              bool // all underlay addresses on the IPv6 loopback
 	Links           []link
 }
 
@@ -118,7 +120,7 @@ func sizes(r *vgen.Rand) (int, int) {
 }
 
 func genPlumb(r *vgen.Rand, i int) plumbCase {
-	c := plumbCase{Batch: r.Range(1, 512), Reuse: r.Chance(2, 3), Driver: r.Intn(2)}
+	c := plumbCase{Batch: r.Range(1, 512), Reuse: r.Chance(2, 3), Driver: r.Intn(2), V6: r.Chance(1, 3)}
 	c.Rcv, c.Snd = sizes(r)
 	// boundary pairs first
 	fixed := [][2]int{{0, 0}, {0, 1}, {1, 0}, {4096, 4096}, {65536, 131072}, {131072, 65536},
@@ -130,8 +132,7 @@ func genPlumb(r *vgen.Rand, i int) plumbCase {
 	c.Links = []link{{Kind: 0, Origin: 0}}
 	n := r.Range(1, 5)
 	for k := 0; k < n; k++ {
-		l := link{Kind: r.Range(1, 2), Origin: r.Intn(2), IfID: k + 1,
-			Remote: fmt.Sprintf("127.0.%d.%d:%d", k+1, r.Range(2, 250), r.Range(30000, 40000))}
+		l := link{Kind: r.Range(1, 2), Origin: r.Intn(2), IfID: k + 1, Salt: r.Range(2, 250)}
 		if c.Driver == 0 && l.Kind == 1 {
 			l.Origin = 0 // ConfigDataplane always puts sibling links on "udpip"
 		}
@@ -144,14 +145,40 @@ func genPlumb(r *vgen.Rand, i int) plumbCase {
 	}
 	// every case has at least one external and, in two thirds, one sibling link
 	c.Links[1].Kind = 2
+	c.setRemotes()
 	return c
+}
+
+// setRemotes derives the remote underlay addresses from the address family of the case.
+func (c *plumbCase) setRemotes() {
+	for k := 1; k < len(c.Links); k++ {
+		l := &c.Links[k]
+		if c.V6 { // the IPv6 loopback has one address: remotes differ by port
+			l.Remote = fmt.Sprintf("[::1]:%d", 32000+1000*k+l.Salt)
+		} else {
+			l.Remote = fmt.Sprintf("127.0.%d.%d:%d", k, l.Salt, 30000+l.Salt)
+		}
+	}
 }
 
 const (
 	localIA  = "1-ff00:0:110"
 	remoteIA = "1-ff00:0:120"
-	intAddr  = "127.0.0.1:30042"
 )
+
+func (c plumbCase) intAddr() string {
+	if c.V6 {
+		return "[::1]:30042"
+	}
+	return "127.0.0.1:30042"
+}
+
+func (c plumbCase) localAddr(ifID int) string {
+	if c.V6 {
+		return "[::1]:" + strconv.Itoa(31000+ifID)
+	}
+	return "127.0.0.1:" + strconv.Itoa(31000+ifID)
+}
 
 func provName(o int) string {
 	if o == 1 {
@@ -167,7 +194,7 @@ func topoJSON(c plumbCase) []byte {
 	own, sib := m{}, m{}
 	for _, l := range c.Links[1:] {
 		ifc := m{"isd_as": remoteIA, "link_to": "CORE", "mtu": 1472,
-			"underlay": m{"provider": provName(l.Origin), "local": "127.0.0.1:" + strconv.Itoa(31000+l.IfID),
+			"underlay": m{"provider": provName(l.Origin), "local": c.localAddr(l.IfID),
 				"remote": l.Remote}}
 		if l.Kind == 2 {
 			own[strconv.Itoa(l.IfID)] = ifc
@@ -177,7 +204,7 @@ func topoJSON(c plumbCase) []byte {
 	}
 	t := m{"isd_as": localIA, "mtu": 1472, "attributes": []string{"core"},
 		"border_routers": m{
-			"br1": m{"internal_addr": intAddr, "interfaces": own},
+			"br1": m{"internal_addr": c.intAddr(), "interfaces": own},
 			"br2": m{"internal_addr": sibAddr(c), "interfaces": sib},
 		},
 		"control_service": m{"cs1": m{"addr": "127.0.0.9:30252"}},
@@ -190,7 +217,12 @@ func topoJSON(c plumbCase) []byte {
 }
 
 // all sibling interfaces of one case live on one sibling router in driver 0 (one link, deduplicated)
-func sibAddr(c plumbCase) string { return "127.0.0.77:30042" }
+func sibAddr(c plumbCase) string {
+	if c.V6 {
+		return "[::1]:30077"
+	}
+	return "127.0.0.77:30042"
+}
 
 type result struct {
 	obs  []*[2]int // per link: nil = no Open; conn.Config (receive, send)
@@ -242,12 +274,13 @@ func runPlumb(c plumbCase, real bool) (res result) {
 		if err := cn.CreateIACtx(ia); err != nil {
 			return result{err: err.Error()}
 		}
+		intAddr := c.intAddr()
 		ih := addr.HostIP(netip.MustParseAddrPort(intAddr).Addr())
 		if err := cn.AddInternalInterface(ia, ih, "udpip", intAddr); err != nil {
 			return result{err: "AddInternalInterface: " + err.Error()}
 		}
 		for i, l := range c.Links[1:] {
-			local := "127.0.0.1:" + strconv.Itoa(31000+l.IfID)
+			local := c.localAddr(l.IfID)
 			if l.Kind == 1 {
 				local = intAddr
 			}
@@ -320,11 +353,14 @@ func obsFlat(acc []uint64, o *[2]int) []uint64 {
 
 type sockObs struct{ Rcv, Snd int }
 
-func openSock(rcv, snd int, connected bool) (sockObs, error) {
+func openSock(rcv, snd int, connected, v6 bool) (sockObs, error) {
 	l := netip.MustParseAddrPort("127.0.0.1:0")
+	if v6 {
+		l = netip.MustParseAddrPort("[::1]:0")
+	}
 	var r netip.AddrPort
 	if connected {
-		r = netip.MustParseAddrPort("127.0.0.1:30041")
+		r = netip.AddrPortFrom(l.Addr(), 30041)
 	}
 	c, err := conn.New(l, r, &conn.Config{ReceiveBufferSize: rcv, SendBufferSize: snd})
 	if err != nil {
@@ -376,8 +412,9 @@ func main() {
 		"the Connector calls (driver 1), recording ConnOpener, 1 internal + 1-5 sibling/external links on the " +
 		"provider made at construction or on a lazily instantiated one, (receive,send) from boundary pairs " +
 		"(0/0, equal, distinct, swapped) and random sizes; observable = conn.Config of every Open. " +
-		"chain: the same with real loopback sockets (conn.New), SO_RCVBUF/SO_SNDBUF of every socket read back. " +
-		"sock: conn.New alone with sizes inside the kernel limits. " +
+		"chain: the same with real IPv4 and IPv6 loopback sockets (conn.New), SO_RCVBUF/SO_SNDBUF of every socket " +
+		"read back; sizes zero, inside and above net.core.rmem_max/wmem_max, each direction independently. " +
+		"sock: conn.New alone (IPv4/IPv6, connected or not), same sizes. " +
 		"non-trivial = receive != send (a swap is visible) and at least one socket observed"
 	rng := vgen.NewRand(run.Seed)
 	id := 0 // id of the case being generated (every generated case consumes exactly one id)
@@ -431,21 +468,42 @@ func main() {
 	// real sockets
 	rmax := readInt("/proc/sys/net/core/rmem_max", 212992)
 	wmax := readInt("/proc/sys/net/core/wmem_max", 212992)
-	def, derr := openSock(0, 0, false)
+	def, derr := openSock(0, 0, false, false)
 	if derr != nil {
 		run.Extra("sockets_unavailable", derr.Error())
 	}
+	def6, derr6 := openSock(0, 0, false, true)
+	if derr6 != nil {
+		run.Extra("ipv6_loopback_unavailable", derr6.Error())
+	} else if def6 != def {
+		run.Extra("ipv6_defaults_differ", []sockObs{def, def6})
+	}
+	// sizes: zero (keep the default), inside the kernel limit, or above it (the kernel caps the
+	// request at net.core.rmem_max / wmem_max; each direction independently)
 	pick := func(r *vgen.Rand, max int) int {
-		if r.Chance(1, 5) {
+		switch k := r.Intn(10); {
+		case k < 2:
 			return 0
+		case k < 5:
+			return max + r.Range(1, 1<<20)
 		}
-		if max > 1<<22 {
-			max = 1 << 22
+		hi := max
+		if hi > 1<<22 {
+			hi = 1 << 22
 		}
-		if max < 8192 {
-			max = 8192
+		if hi < 8192 {
+			hi = 8192
 		}
-		return r.Range(8192, max)
+		return r.Range(8192, hi)
+	}
+	// boundary pairs around the limits, used by the first chain and sock cases
+	over := [][2]int{{rmax + 1<<20, 65536}, {rmax + 1<<20, 0}, {65536, wmax + 1<<20}, {0, wmax + 1},
+		{rmax + 1, wmax + 1<<20}, {rmax, wmax}, {16384, 65536}, {65536, 16384}}
+	defOf := func(v6 bool) sockObs {
+		if v6 {
+			return def6
+		}
+		return def
 	}
 
 	// the whole chain with real sockets
@@ -454,9 +512,17 @@ func main() {
 		r := rng.Fork(uint64(2000000 + i))
 		c := genPlumb(r, 1<<30)
 		c.Rcv, c.Snd = pick(r, rmax), pick(r, wmax)
-		if i < 2 {
-			c.Rcv, c.Snd = 16384<<uint(i), 32768>>uint(i)
+		c.V6 = i%2 == 1
+		if i < 2*len(over) {
+			c.Rcv, c.Snd = over[i/2][0], over[i/2][1]
 		}
+		if c.V6 && derr6 != nil {
+			c.V6 = false
+			if run.Want() {
+				run.Tally("chain:ipv6-unavailable-ran-ipv4")
+			}
+		}
+		c.setRemotes()
 		if !run.Want() {
 			run.Skip()
 			continue
@@ -485,12 +551,14 @@ func main() {
 				n++
 			}
 		}
-		run.Tally("chain:run")
+		run.Tally(fmt.Sprintf("chain:v6=%v", c.V6))
+		run.Tally(fmt.Sprintf("chain:over-limit rcv=%v snd=%v", c.Rcv > rmax, c.Snd > wmax))
 		term := vgen.App("SockCfg.CChain", vgen.N(uint64(c.Rcv)), vgen.N(uint64(c.Snd)),
 			vgen.N(uint64(c.Batch)), vgen.B(c.Reuse), lt,
-			vgen.N(uint64(def.Rcv)), vgen.N(uint64(def.Snd)), vgen.NList(ot))
+			vgen.N(uint64(defOf(c.V6).Rcv)), vgen.N(uint64(rmax)),
+			vgen.N(uint64(defOf(c.V6).Snd)), vgen.N(uint64(wmax)), vgen.NList(ot))
 		run.Add("chain", term, fmt.Sprint(c), c.Rcv != c.Snd && n > 0,
-			map[string]any{"case": c, "default": def, "impl": bufs})
+			map[string]any{"case": c, "default": defOf(c.V6), "rmem_max": rmax, "wmem_max": wmax, "impl": bufs})
 	}
 
 	// conn.New alone
@@ -499,13 +567,17 @@ func main() {
 		r := rng.Fork(uint64(1000000 + i))
 		rcv, snd := pick(r, rmax), pick(r, wmax)
 		connected := r.Bool()
-		switch i {
-		case 0:
+		v6 := i%2 == 1
+		if i == 0 {
 			rcv, snd = 0, 0
-		case 1:
-			rcv, snd = 16384, 65536
-		case 2:
-			rcv, snd = 65536, 16384
+		} else if i-1 < 2*len(over) {
+			rcv, snd = over[(i-1)/2][0], over[(i-1)/2][1]
+		}
+		if v6 && derr6 != nil {
+			v6 = false
+			if run.Want() {
+				run.Tally("sock:ipv6-unavailable-ran-ipv4")
+			}
 		}
 		if !run.Want() {
 			run.Skip()
@@ -516,17 +588,20 @@ func main() {
 			run.Skip()
 			continue
 		}
-		o, err := openSock(rcv, snd, connected)
+		o, err := openSock(rcv, snd, connected, v6)
 		if err != nil {
 			run.Violate(id, "conn.New failed: "+err.Error(), map[string]int{"rcv": rcv, "snd": snd})
 			run.Skip()
 			continue
 		}
-		run.Tally(fmt.Sprintf("sock:connected=%v", connected))
+		run.Tally(fmt.Sprintf("sock:connected=%v,v6=%v", connected, v6))
+		run.Tally(fmt.Sprintf("sock:over-limit rcv=%v snd=%v", rcv > rmax, snd > wmax))
 		term := vgen.App("SockCfg.CSock", vgen.N(uint64(rcv)), vgen.N(uint64(snd)),
-			vgen.N(uint64(def.Rcv)), vgen.N(uint64(def.Snd)), vgen.N(uint64(o.Rcv)), vgen.N(uint64(o.Snd)))
-		run.Add("sock", term, fmt.Sprint(rcv, snd, connected), rcv != snd,
-			map[string]any{"rcv": rcv, "snd": snd, "connected": connected, "default": def, "impl": o})
+			vgen.N(uint64(defOf(v6).Rcv)), vgen.N(uint64(rmax)), vgen.N(uint64(defOf(v6).Snd)),
+			vgen.N(uint64(wmax)), vgen.N(uint64(o.Rcv)), vgen.N(uint64(o.Snd)))
+		run.Add("sock", term, fmt.Sprint(rcv, snd, connected, v6), rcv != snd,
+			map[string]any{"rcv": rcv, "snd": snd, "connected": connected, "v6": v6, "default": defOf(v6),
+				"rmem_max": rmax, "wmem_max": wmax, "impl": o})
 	}
 	run.Finish()
 }
